@@ -62,6 +62,7 @@ JOBS["session"] = dict(module="MC_Session", constants=dict(Slice="session", Dept
 
 TIMER_INV = ["NoFalseTimeout", "RealAnswers", "FastUndisturbed", "NoLateFire", "CancelReturns", "Emit"]
 JOBS["timer"] = dict(module="MC_Timer", constants=dict(Slice="timer", NQ=2, GenerationFix="TRUE"), invariants=TIMER_INV,
+                     spec="FairSpec", properties=["EveryQueryReports"],
                      timeout={"quick": 600, "thorough": 1800}, workers=4)
 JOBS["timer3"] = dict(module="MC_Timer", constants=dict(Slice="timer", NQ=3, GenerationFix="TRUE"), invariants=TIMER_INV,
                       timeout={"quick": 600, "thorough": 1800}, workers=8, tiers=("thorough",))
@@ -103,8 +104,8 @@ PROPS = {
     "C11": dict(jobs=["solver-andor", "solver-alias", "solver-lists", "solver-print", "solver-not", "solver-cut"], level="model_checking",
                 rule="every program of the solver slices under two clause-wise renamings generated by the specification (pool 1 reuses the QUERY's variable names in every clause, all clauses sharing names; pool 2 swaps each clause's own names); AlphaInvariant is checked on the reference semantics and every variant is replayed",
                 assumptions=[]),
-    "C19": dict(jobs=["syntax-terms", "syntax-goals"], level="model_checking",
-                rule="every term of the canonical grammar to depth 2 (3 in thorough), every goal (simple goals, conjunctions, disjunctions of conjunctions, not) and rule of the goal universe: canonical text from the specification's printer must parse to the AST, print back unchanged and re-parse equal; the alternative documented surface forms (infix comparison / arithmetic, `q` for `q()`, `q.`) must parse to the same AST; the printer is checked injective by TLC",
+    "C19": dict(jobs=["syntax-terms", "syntax-goals", "solver-andor"], level="model_checking",
+                rule="(solver-andor: every program of that slice which has a source text is also written out as text, each clause parsed with parse_rule -- it must be the clause the specification built -- and the search over the LOADED knowledge base must observe what the reference observes) (syntax-goals also: every tree of conjunctions and disjunctions to depth 2, and depth-3 trees with one deep operand, written with the documented grouping parentheses in two ways, as a goal and as a rule body: must parse to exactly that tree) every term of the canonical grammar to depth 2 (3 in thorough), every goal (simple goals, conjunctions, disjunctions of conjunctions, not) and rule of the goal universe: canonical text from the specification's printer must parse to the AST, print back unchanged and re-parse equal; the alternative documented surface forms (infix comparison / arithmetic, `q` for `q()`, `q.`) must parse to the same AST; the printer is checked injective by TLC",
                 assumptions=["only text that Display can express unambiguously is canonical: a conjunction containing a disjunction has no canonical text"]),
     "C20": dict(jobs=["syntax-terms"], level="model_checking",
                 rule="every term text of the C19 universe plus signed numbers, punctuation and quoted atoms, embedded in 12 placement contexts (alone, complex argument first/last, built-in argument, list element first/last, infix operand left/right, comparison operand, query argument, rule head, rule body); the term recovered from each context is compared with the stand-alone parse",
@@ -113,8 +114,8 @@ PROPS = {
                 rule="all strings up to length 4 (5 in thorough) over a 24-symbol syntax alphabet, all single (thorough: sampled double) mutations of canonical goal / rule / term texts, and all canonical texts, through the 8 parser entry points; distinct = distinct input strings; non-trivial = every string (the oracle is 'returns')",
                 level_text="bounded-exhaustive exploration of the parser input space defined by the specification (alphabet, lengths, seed texts, mutation operators); the oracle is trivial (a value or an error, never a panic / hang), so this is exploration, not model checking of a behaviour",
                 assumptions=["the claim is exactly the enumerated space"]),
-    "C21": dict(jobs=["reader-layout"], level="model_checking",
-                rule="8 programs of 1-3 rules (facts with spaces in atoms, float literals, infix = + - > >= <, lists, disjunction, short facts) x every layout with at most 2 (thorough 3) deviations from one-rule-per-line: line break / indented break / tab / blank line after any continuation character, two rules on one line, trailing # % // comments and comment lines outside brackets; TLC runs the Reader machine over each layout (ReaderCorrect) and the real loader must produce the knowledge base of parse_rule on each rule",
+    "C21": dict(jobs=["reader-layout", "solver-andor"], level="model_checking",
+                rule="(solver-andor: every program of that slice which has a source text is written to a file, one clause per line: the loaded knowledge base must be the one parse_rule gives clause by clause) 8 programs of 1-3 rules (facts with spaces in atoms, float literals, infix = + - > >= <, lists, disjunction, short facts) x every layout with at most 2 (thorough 3) deviations from one-rule-per-line: line break / indented break / tab / blank line after any continuation character, two rules on one line, trailing # % // comments and comment lines outside brackets; TLC runs the Reader machine over each layout (ReaderCorrect) and the real loader must produce the knowledge base of parse_rule on each rule",
                 assumptions=["pieces (where a line may legally end) are written out per rule in MC_Reader.tla; the harness joins them with single spaces to obtain the canonical rule text"]),
     "C22": dict(jobs=["session"], level="model_checking",
                 rule="all histories of 1-2 (thorough 3) episodes over 4-6 queries x 8-14 call lists (next_solution x4 incl. re-asks after exhaustion, solve x3, solve_all, mixes, and solve / solve_all calls during which the query timer fires before the 1st..5th count_rules()); every query is built with make_query + make_base_node only; TLC checks EachRunIsItsOwnSLD on Session.tla and the history is replayed with the virtual timer hook",
